@@ -1,6 +1,8 @@
 package checks
 
 import (
+	"time"
+
 	"verifharness/internal/core"
 	"verifharness/internal/gen"
 )
@@ -45,9 +47,43 @@ func cnfCases(env *core.Env, count int, cert func(i int) bool) []core.Case {
 	return res
 }
 
+// cdclDesigns: the design-level runs shared by C01 and C06. Every initial state (formula) of the
+// exhaustive CDCL model is turned into cases for the real solver.
+func cdclDesigns(allCert bool) []core.Design {
+	actions := []string{"Propagate", "Conflict", "Decide", "Explain", "Minimise", "Backjump", "Fail", "Succeed", "Restart", "Forget"}
+	toCases := func(env *core.Env, emitted []core.Case) []core.Case {
+		var res []core.Case
+		for i, e := range emitted {
+			nv := int(e["n"].(float64))
+			var clauses [][]int
+			for _, c := range e["F"].([]any) {
+				var cl []int
+				for _, l := range c.([]any) {
+					cl = append(cl, int(l.(float64)))
+				}
+				clauses = append(clauses, cl)
+			}
+			if !env.Quick() && i%2 == 0 {
+				clauses = gen.Shuffle(env.Rand, clauses)
+			}
+			a := gen.APICase("slicenb", nv, true, gen.ClauseCtors(clauses), false, nil, gen.Cfg(true, 2, 2, false, false, true), []gen.M{gen.Op("solve")})
+			b := gen.APICase("dimacs", nv, true, gen.ClauseCtors(clauses), false, nil, gen.Cfg(allCert, 0, 0, false, false, true), []gen.M{gen.Op("solve")})
+			a["wbStrict"], b["wbStrict"] = allCert, allCert
+			res = append(res, a, b)
+		}
+		return res
+	}
+	return []core.Design{
+		{Name: "cdcl", Module: "CDCL", Cfg: "CDCL_quick.cfg", Tier: "quick", Coverage: true, MustCover: actions, ToCases: toCases, Timeout: 10 * time.Minute},
+		{Name: "cdcl", Module: "CDCL", Cfg: "CDCL_thorough.cfg", Tier: "thorough", Coverage: true, MustCover: actions, ToCases: toCases, Timeout: 40 * time.Minute, XmxMB: 24000},
+		{Name: "cdcl-live", Module: "CDCL", Cfg: "CDCL_live.cfg", Timeout: 5 * time.Minute},
+	}
+}
+
 func init() {
 	register(&core.Check{
 		ID:          "C01",
+		Designs:     cdclDesigns(false),
 		TraceModule: "APITrace",
 		Cases: func(env *core.Env) []core.Case {
 			return cnfCases(env, env.Pick(1500, 20000), func(i int) bool { return i%2 == 0 })
